@@ -20,7 +20,7 @@ Next == /\ Len(hist) < MaxFaults
 vars == <<a, hist>>
 Spec == Init /\ [][Next]_vars
 
-View == a
+View == <<a, Len(hist)>>      \* the depth is part of the view: Next is bounded by Len(hist), and with several workers BFS is not strict
 Scenario(h) == [wrap |-> a.wrap, faults |-> h, class |-> Class(a'), reasons |-> Reasons(a')]
 Emit == PrintT(<<"TRACE", ToJson(Scenario(hist'))>>)
 EmitProp == [][Emit]_vars
